@@ -8,7 +8,7 @@
     ty     := b | i | f | s | o | n x<alias> | m <ty> | a <ty> | d <ty> | S <n> <field>*n | E <n> <field>*n
     field  := T x<name> <ty> | B x<name>
 -/
-import Varlink.Gen.Generator
+import Varlink.Gen.View
 import Driver.Proto
 namespace Driver.Gen
 open Varlink Varlink.Idl Varlink.Gen Driver
@@ -53,6 +53,95 @@ def idlP : P Idl := do
   let members ← listOf memberP
   pure { name, doc, description, members }
 
+/-! ## rendering of the `GoFile` view, the format of harness/gensummary.go -/
+
+def joinB (sep : Bytes) : List Bytes → Bytes
+  | [] => []
+  | [a] => a
+  | a :: r => a ++ sep ++ joinB sep r
+
+mutual
+partial def renderTy : GoTy → Bytes
+  | .name n => n
+  | .qual p n => p ++ str "." ++ n
+  | .ptr t => str "*" ++ renderTy t
+  | .slice t => str "[]" ++ renderTy t
+  | .map t => str "map[string]" ++ renderTy t
+  | .struct fs => str "struct{" ++ renderFields fs ++ str "}"
+  | .func p r => str "func(" ++ renderFields p ++ str ")(" ++ renderFields r ++ str ")"
+partial def renderFieldList : GoFields → List Bytes
+  | .nil => []
+  | .cons n t g r =>
+    ((if n.isEmpty then [] else n ++ str " ") ++ renderTy t ++ (if g.isEmpty then [] else str " \"" ++ g ++ str "\""))
+      :: renderFieldList r
+partial def renderFields (fs : GoFields) : Bytes := joinB (str ";") (renderFieldList fs)
+end
+
+partial def renderExpr : Expr → Bytes
+  | .ident n => n
+  | .sel x f => x ++ str "." ++ f
+  | .conv t p e => (if p then str "pconv[" else str "conv[") ++ renderTy t ++ str "](" ++ renderExpr e ++ str ")"
+
+def hexB (b : Bytes) : Bytes := str (encB b)
+
+def indent (d : Nat) : Bytes := List.replicate d 32
+
+mutual
+partial def renderStmt (d : Nat) : Stmt → Bytes
+  | .var n t => indent d ++ str "var " ++ n ++ str " " ++ renderTy t ++ [10]
+  | .define ns => indent d ++ str "def " ++ joinB (str ",") ns ++ [10]
+  | .set l r => indent d ++ str "set " ++ renderExpr l ++ str " = " ++ renderExpr r ++ [10]
+  | .args p as => indent d ++ str "args " ++ joinB (str ".") p ++ str " (" ++ joinB (str ";") (as.map renderExpr) ++ str ")" ++ [10]
+  | .use x f => indent d ++ str "use " ++ x ++ str "." ++ f ++ [10]
+  | .strArg x f l => indent d ++ str "str " ++ x ++ str "." ++ f ++ str " " ++ hexB l ++ [10]
+  | .retString v => indent d ++ str "ret " ++ hexB v ++ [10]
+  | .closure p r b => indent d ++ str "closure (" ++ renderFields p ++ str ") (" ++ renderFields r ++ str ")" ++ [10] ++ renderStmts (d + 1) b
+  | .caseBlock l b => indent d ++ str "case " ++ (match l with | some v => hexB v | none => str "-") ++ [10] ++ renderStmts (d + 1) b
+partial def renderStmts (d : Nat) : List Stmt → Bytes
+  | [] => []
+  | s :: r => renderStmt d s ++ renderStmts d r
+end
+
+def renderDecl : Decl → Bytes
+  | .type n t => str "type " ++ n ++ str " " ++ renderTy t ++ [10]
+  | .iface n ms => str "iface " ++ n ++ [10] ++
+      (ms.map fun m => str " m " ++ m.name ++ str " (" ++ renderFields m.params ++ str ") (" ++ renderFields m.results ++ str ")" ++ [10]).flatten
+  | .func f =>
+    str "func " ++ (match f.recv with
+      | none => str "-"
+      | some r => r.name ++ str " " ++ (if r.pointer then str "*" else []) ++ r.ty)
+    ++ str " " ++ f.name ++ str " (" ++ renderFields f.params ++ str ") (" ++ renderFields f.results ++ str ") uses="
+    ++ joinB (str ",") f.pkgUses ++ [10] ++ renderStmts 1 f.body
+
+/-- go/format sorts the import block; the summary lists the paths sorted -/
+def canonImports : List Bytes :=
+  [str "context", str "encoding/json", str "fmt", str "github.com/varlink/go/varlink"]
+
+def sortedImports (l : List Bytes) : List Bytes :=
+  canonImports.filter (fun p => l.contains p) ++ l.filter (fun p => !canonImports.contains p)
+
+def renderFile (f : GoFile) : Bytes :=
+  str "package " ++ f.pkg ++ [10]
+  ++ ((sortedImports f.imports).map fun p => str "import " ++ p ++ [10]).flatten
+  ++ (f.decls.map renderDecl).flatten
+
+/-- first line on which two renderings differ (for the DIFF reason) -/
+def firstDiffLine (a b : Bytes) : String :=
+  let la := splitAll 10 a
+  let lb := splitAll 10 b
+  let rec go : List Bytes → List Bytes → Nat → String
+    | x :: xs, y :: ys, i => if x == y then go xs ys (i + 1) else s!"line{i}"
+    | [], [], _ => "none"
+    | _, _, i => s!"length-at-line{i}"
+  go la lb 0
+
+/-- `gensum <idl>`: the rendering alone (debugging aid) -/
+def cmdGenSum : P String := do
+  let t ← idlP
+  match genFile t with
+  | some f => pure s!"S {encB (renderFile f)}"
+  | none => pure "CRASH"
+
 /-- `gentext <idl>` -/
 def cmdGenText : P String := do
   let t ← idlP
@@ -61,6 +150,6 @@ def cmdGenText : P String := do
   | .crash => pure "CRASH"
 
 /-- command table of this module -/
-def table : List (String × P String) := [("gentext", cmdGenText)]
+def table : List (String × P String) := [("gentext", cmdGenText), ("gensum", cmdGenSum)]
 
 end Driver.Gen
